@@ -55,7 +55,10 @@ AccFields == {"hints", "details", "fhints", "fdetails", "links", "tags", "domain
 \* compare a recorded accessor observation with a model one
 AccDiff(ra, ma) ==
   {f \in AccFields : ra[f] # ma[f]} \cup (IF SeqToSet(ra.keys) # ma.keys THEN {"keys"} ELSE {})
-RAccDiff(ra, rb) == {f \in AccFields \cup {"keys"} : ra[f] # rb[f]}
+  \cup (IF SeqToSet(ra.hastype) # ma.hastype THEN {"hastype"} ELSE {})
+\* before / after a hop: every accessor, the OS predicates, the frames of every
+\* reportable stack trace and the one-line source (types change: not compared)
+RAccDiff(ra, rb) == {f \in AccFields \cup {"keys", "os", "frames", "source"} : ra[f] # rb[f]}
 
 \* ---- outputs declared PII-free; redactable renderings (C03, C06, C12)
 \* marker stream: 1 = open, 2 = close, 3 = newline.  Balanced, never nested,
